@@ -72,7 +72,7 @@ fn run(ctx: &mut Ctx) {
         ctx.eval();
         let dir = workdir(ctx, i);
         let nb = 1 + rng.usize(4);
-        let big = i % 97 == 13;
+        let big = i % 40 == 12 || i % 194 == 13; // mostly fault-free runs (even i), now and then with an injected fault
         // fault plan: 0 none, then the single faults of the statement
         let fault = if i % 2 == 0 { 0 } else { 1 + rng.below(8) };
         let fault_board = rng.usize(nb);
@@ -86,7 +86,9 @@ fn run(ctx: &mut Ctx) {
             // (a quiet board: no wrap, no edge - its stream is the counter-0 marker alone, possibly among scaler blocks)
             let quiet = !big && rng.chance(0.08);
             let early_heavy = big && b == 0 && rng.bool(); // more than 65 536 entries in front of the counter-0 marker
-            let hw = if quiet || early_heavy { 1 } else if rng.chance(0.1) { 0 } else { 1 + rng.below(17) as u32 };
+            // (a busy board that is not early-heavy spreads its entries over 4..15 half wraps, so that every multiple of
+            // 65 536 entries falls between two consecutive markers)
+            let hw = if quiet || early_heavy { 1 } else if big && b == 0 { 4 + rng.below(12) as u32 } else if rng.chance(0.1) { 0 } else { 1 + rng.below(17) as u32 };
             // now and then one board is busy: more than 2^16 (and 2^17) FIFO entries in its stream
             let ne = if quiet { 0 } else if early_heavy { 140_000 + rng.usize(20_000) } else if big && b == 0 { 66_000 + rng.usize(80_000) } else if rng.chance(0.1) { 1000 + rng.usize(1000) } else { 30 + rng.usize(170) };
             let frac = *rng.pick(&[0.0, 0.1, 0.1, 0.3]);
